@@ -20,7 +20,7 @@ pub assume_specification<'a>[ str::trim_end ](s: &'a str) -> (out: &'a str)
     ensures
         out@.is_prefix_of(s@),
         out@.len() > 0 ==> !is_ws(out@.last()),
-        forall|i: int| out@.len() <= i < s@.len() ==> is_ws(s@[i]),
+        forall|i: int| out@.len() <= i < s@.len() ==> is_ws(#[trigger] s@[i]),
         out.spec_bytes() =~= s.spec_bytes().subrange(0, out.spec_bytes().len() as int),
         out.spec_bytes().len() <= s.spec_bytes().len(),
         bnd(s.spec_bytes(), out.spec_bytes().len() as int),     // a prefix that is a str ends on a boundary
@@ -30,7 +30,7 @@ pub assume_specification<'a>[ str::trim_start ](s: &'a str) -> (out: &'a str)
     ensures
         out@.is_suffix_of(s@),
         out@.len() > 0 ==> !is_ws(out@[0]),
-        forall|i: int| 0 <= i < s@.len() - out@.len() ==> is_ws(s@[i]),
+        forall|i: int| 0 <= i < s@.len() - out@.len() ==> is_ws(#[trigger] s@[i]),
         out.spec_bytes().len() <= s.spec_bytes().len(),
         out.spec_bytes() =~= s.spec_bytes().subrange(s.spec_bytes().len() - out.spec_bytes().len(), s.spec_bytes().len() as int),
         bnd(s.spec_bytes(), s.spec_bytes().len() - out.spec_bytes().len()),   // a suffix that is a str starts on a boundary
@@ -77,3 +77,18 @@ pub fn vp_is_char_boundary(s: &str, i: usize) -> (r: bool)
 pub proof fn axiom_view_of_bytes(s: &str)
     ensures s@ == chars_of(s.spec_bytes()),
 {}
+
+/// A `str` has at most `usize::MAX` bytes and no more characters than bytes.
+#[verifier::external_body]
+pub proof fn axiom_str_len_bound(s: &str)
+    ensures s@.len() <= s.spec_bytes().len() <= usize::MAX,
+{}
+
+/// `haystack.contains(needle)` for a `&str` needle (rule R6b: method call on a generic `Pattern` rewritten to this shim)
+pub open spec fn contains_substr(h: Seq<char>, n: Seq<char>) -> bool {
+    exists|i: int| 0 <= i && i + n.len() <= h.len() && #[trigger] h.subrange(i, i + n.len()) =~= n
+}
+#[verifier::external_body]
+pub fn vp_str_contains_str(h: &str, n: &str) -> (r: bool)
+    ensures r == contains_substr(h@, n@),
+{ unimplemented!() }
